@@ -274,7 +274,7 @@ func ruleLockCommonSendClose(c *chk.Ctx) {
 			}
 		}
 	}
-	c.Floor("LOCK.common", 8, "server: encode Send + 3 call contexts + Close; client: 2 Sends + Close")
+	c.Floor("LOCK.common", 6, "server: encode Send + at least one call context + Close; client: 2 Sends + Close")
 }
 
 func isParamDerived(v ssa.Value) bool {
@@ -516,8 +516,27 @@ func encoderFuncs(c *chk.Ctx) map[*ssa.Function]bool {
 		if f.Signature.Params().Len() == 0 && res.Len() == 2 && res.At(0).Type().String() == "[]byte" && res.At(1).Type().String() == "error" {
 			out[f] = true
 		}
+		// a method of the message types that writes into a buffer handed to it (an encoder split
+		// into "encode to this buffer" and a wrapper)
+		if res.Len() == 1 && res.At(0).Type().String() == "error" && writesBuffer(f) {
+			out[f] = true
+		}
 	}
 	return out
+}
+
+func isBufferWrite(cc *ssa.CallCommon) bool {
+	return ir.IsCallTo(cc, "(*bytes.Buffer).Write", "(*bytes.Buffer).WriteString", "(*bytes.Buffer).WriteByte", "(*strings.Builder).WriteString", "(*strings.Builder).Write", "(*strings.Builder).WriteByte")
+}
+
+func writesBuffer(f *ssa.Function) bool {
+	found := false
+	ir.Calls(f, func(ci ssa.CallInstruction) {
+		if isBufferWrite(ci.Common()) {
+			found = true
+		}
+	})
+	return found
 }
 
 func isEncoderCall(encs map[*ssa.Function]bool, v ssa.Value) (*ssa.Call, bool) {
